@@ -247,6 +247,13 @@ func H13_synmerge() {
 	}
 	want.nDocs = int(next)
 	if next == 0 && vSkipKnown("C05-nothing-survives") {
+		// recorded finding of C05 (the result of a merge without survivors cannot be queried); what holds stays checked
+		var z ZapPlugin
+		_, _, err := z.Merge([]segment.Segment{s0, s1}, []*roaring.Bitmap{d0, d1}, vP("m.zap"), nil, nil)
+		vAssert(err == nil, "zero-merge")
+		m, err := z.Open(vP("m.zap"))
+		vAssert(err == nil && m.Count() == 0, "zero-open")
+		vAssert(m.Close() == nil, "zero-close")
 		return
 	}
 	for si, sp := range []*sSynSpec{sp0, sp1} {
